@@ -478,3 +478,80 @@ func shapeKind(shape any) string {
 	}
 	return "value"
 }
+
+// coarseShape abstracts the root object's field types for the kinds of
+// failures that cannot be attributed to a position (exceptions, crashes): all
+// scalar kinds collapse, references are named by what they resolve to, and
+// required/optional is dropped, so one defect gives one kind while different
+// shapes raising the same exception class stay apart (no masking).
+func coarseShape(s gschema.Schema) string {
+	t := s.Objs[0].T
+	if t.K != "struct" {
+		return coarseType(s, t, 2)
+	}
+	seen := map[string]bool{}
+	var parts []string
+	for i := range t.Fields {
+		c := coarseType(s, t.Sub[i], 2)
+		if !seen[c] {
+			seen[c] = true
+			parts = append(parts, c)
+		}
+	}
+	sort.Strings(parts)
+	return strings.Join(parts, " + ")
+}
+
+func coarseType(s gschema.Schema, t gschema.Term, budget int) string {
+	out := ""
+	switch t.K {
+	case "scalar":
+		out = "scalar"
+		if t.A == "any" {
+			out = "any"
+		}
+	case "const", "enum", "constref":
+		out = t.K
+	case "ref":
+		target, ok := s.Lookup(strings.TrimPrefix(t.A, gschema.Pkg+"."))
+		switch {
+		case !ok:
+			out = "ref→?"
+		case target.K == "struct":
+			out = "ref→struct"
+			if strings.TrimPrefix(t.A, gschema.Pkg+".") == s.Objs[0].Name {
+				out = "ref→self"
+			}
+		case budget > 0:
+			out = "ref→" + coarseType(s, target, budget-1)
+		default:
+			out = "ref→" + target.K
+		}
+	case "array", "map":
+		out = t.K + " of " + coarseType(s, t.Sub[len(t.Sub)-1], budget)
+	case "struct":
+		var p []string
+		for i := range t.Fields {
+			p = append(p, coarseType(s, t.Sub[i], budget))
+		}
+		out = "{" + strings.Join(p, ",") + "}"
+	case "disj":
+		var p []string
+		for _, b := range t.Sub {
+			p = append(p, coarseType(s, b, budget))
+		}
+		out = "(" + strings.Join(p, "|") + ")"
+		if t.Disc {
+			out += "@disc"
+		}
+	default:
+		out = t.K
+	}
+	if t.Nullable {
+		out += "?"
+	}
+	if t.Default != "" {
+		out += "=default"
+	}
+	return out
+}
